@@ -266,7 +266,7 @@ Proof. split; [reflexivity|discriminate]. Qed.
    the NULLs of f and x (leading ones back-filled) are math.NaN() and do not go through Fixed; the parsed
    value of f does *)
 Definition example_conf : sql_config :=
-  mkCfg (str "t") 0 false 2 (Some [(str "b", CoInt64ToBool); (str "f", CoStringToFloat)]).
+  mkCfg (str "t") 0 false 2 (Some [(str "b", Some CoInt64ToBool); (str "f", Some CoStringToFloat)]).
 Example C19_read_coerced_example :
   spec_read_gen toy_fixed toy_pf example_conf [str "b"; str "f"; str "x"; str "i"]
     [[DInt 0; DNull; DNull; DInt 4]; [DInt 7; DStr (str "1.5"); DFloat 16; DInt 5]; [DInt 1; DNull; DNull; DInt 6]]
@@ -355,7 +355,7 @@ Print Assumptions C19_read_never_panics.
    coercion map naming a column the result set does not have runs while colNames is still nil, so it
    never reports anything: the entry is silently ignored. *)
 Example C19_coercion_of_absent_column_is_ignored :
-  read_sql toy_fixed toy_pf (mkCfg [] 0 false 0 (Some [(str "nosuch", CoInt64ToBool)]))
+  read_sql toy_fixed toy_pf (mkCfg [] 0 false 0 (Some [(str "nosuch", Some CoInt64ToBool)]))
            (mkRS [str "a"] [[DInt 1]; [DInt 2]]) no_faults
   = Ok [(str "a", CInt [1; 2]%Z)].
 Proof. vm_compute. reflexivity. Qed.
@@ -376,9 +376,10 @@ Example C19_read_precision_example :
   /\ map (fix_cell toy_fixed 3) [DNull; DNull; DFloat 16; DNull; DFloat 32] = [nan_bits; nan_bits; 3016; nan_bits; 3032].
 Proof. split; vm_compute; reflexivity. Qed.
 
-(* the same as a statement about ReadSQL, on a result set with the single column n *)
+(* the same as a statement about ReadSQL, on a result set with the single column n, which the coercion map
+   does not bind (coerce_entry = None: no pair names it, with or without function) *)
 Theorem C19_read_precision_result_set fixed pf (conf : sql_config) (n : bytes) (vals : list dval) (xs : list N) :
-  check_name n = true -> co_of conf n = None -> (0 < q_precision conf)%Z ->
+  check_name n = true -> coerce_entry conf n = None -> (0 < q_precision conf)%Z ->
   spec_column vals = Some (CFloat xs) ->
   read_sql fixed pf conf (mkRS [n] (map (fun v => [v]) vals)) no_faults
   = Ok [(n, CFloat (map (fix_cell fixed (q_precision conf)) vals))].
@@ -386,7 +387,7 @@ Proof. exact (read_sql_precision_float fixed pf conf n vals xs). Qed.
 Print Assumptions C19_read_precision_result_set.
 
 Example C19_read_precision_result_set_example :
-  check_name (str "x") = true /\ co_of example_conf (str "x") = None /\ (0 < q_precision example_conf)%Z.
+  check_name (str "x") = true /\ coerce_entry example_conf (str "x") = None /\ (0 < q_precision example_conf)%Z.
 Proof. repeat split; vm_compute; reflexivity. Qed.
 
 (* int, bool and string columns come back unchanged whatever the precision *)
@@ -433,11 +434,45 @@ Proof.
   repeat split; vm_compute; reflexivity.
 Qed.
 
+(* ---- C19_coerce_without_function_is_error (defect F26, repaired in internal/io/sql/reader.go).
+   A pair of the coercion map may carry NO function: config/sql.Coerce stores the Go value nil for a
+   CoercePair whose Type is none of the constants (e.g. CoercePair{Column: n}).  When the column it names is
+   in the result set and there is at least one row, ReadSQL reports an error — for every driver behaviour
+   (flt), every precision, every other pair of the map — and does not panic (C19_read_never_panics holds for
+   every configuration); the specification-level oracle demands exactly this error.  A pair without
+   function for a column that is NOT in the result set is never looked at (example below). *)
+Theorem C19_coerce_without_function_is_error fixed pf (conf : sql_config) (rs : result_set) (flt : sql_faults) (n : bytes) :
+  rs_rows rs <> [] -> In n (rs_names rs) -> coerce_entry conf n = Some None ->
+  read_sql fixed pf conf rs flt = Fail.
+Proof. exact (read_sql_coerce_without_function fixed pf conf rs flt n). Qed.
+Print Assumptions C19_coerce_without_function_is_error.
+
+Theorem C19_coerce_without_function_spec fixed pf (conf : sql_config) (names : list bytes) (rows : list (list dval)) (n : bytes) :
+  rows <> [] -> In n names -> coerce_entry conf n = Some None ->
+  spec_read_must_fail fixed pf conf names rows = true /\ spec_read_gen fixed pf conf names rows = None.
+Proof. exact (spec_coerce_without_function fixed pf conf names rows n). Qed.
+Print Assumptions C19_coerce_without_function_spec.
+
+(* premises satisfiable: column a bound without function (the later pair replaces the earlier Int64ToBool);
+   the same map is harmless for a result set without column a, and with no row at all *)
+Example C19_coerce_without_function_example :
+  let conf := mkCfg [] 0 false 0 (Some [(str "a", Some CoInt64ToBool); (str "a", None); (str "b", Some CoInt64ToBool)]) in
+  let rs := mkRS [str "a"; str "b"] [[DInt 1; DInt 0]; [DInt 2; DInt 5]] in
+  rs_rows rs <> [] /\ In (str "a") (rs_names rs) /\ coerce_entry conf (str "a") = Some None
+  /\ read_sql toy_fixed toy_pf conf rs no_faults = Fail
+  /\ read_sql toy_fixed toy_pf conf (mkRS [str "b"; str "c"] [[DInt 1; DInt 0]; [DInt 2; DInt 5]]) no_faults
+     = Ok [(str "b", CBool [true; true]); (str "c", CInt [0; 5]%Z)]
+  /\ read_sql toy_fixed toy_pf conf (mkRS [str "a"; str "b"] []) no_faults
+     = read_sql toy_fixed toy_pf (mkCfg [] 0 false 0 None) (mkRS [str "a"; str "b"] []) no_faults.
+Proof.
+  cbv zeta. split; [discriminate|]. split; [left; reflexivity|]. repeat split; vm_compute; reflexivity.
+Qed.
+
 (* ---- (6) C19_roundtrip_options: the round trip for every configuration in which (i) no column of the
    frame is bound in the coercion map (the map may bind other names) and (ii) Precision <= 0, or
    float.Fixed at that precision is the identity on every float cell of the frame at its index positions *)
 Theorem C19_roundtrip_options fixed pf (f : frame) (conf : sql_config) cols :
-  (forall n, In n (map fst (fcols f)) -> co_of conf n = None) ->
+  (forall n, In n (map fst (fcols f)) -> coerce_entry conf n = None) ->
   ((q_precision conf <= 0)%Z \/
    forall rows row x, spec_rows f = Some rows -> In row rows -> In (DFloat x) row ->
                       fixed x (q_precision conf) = x) ->
@@ -452,10 +487,10 @@ Print Assumptions C19_roundtrip_options.
 Definition example_frame2 : frame :=
   mkFrame [(str "x", CFloat [0x7FF0000000000000; 0x3FF8000000000000; 0x7FF8000000000123]); (str "i", CInt [1; 2; 3]%Z)]
           [2; 0]%nat.
-Definition example_conf2 : sql_config := mkCfg (str "t") 34 true 2 (Some [(str "other", CoInt64ToBool)]).
+Definition example_conf2 : sql_config := mkCfg (str "t") 34 true 2 (Some [(str "other", Some CoInt64ToBool)]).
 
 Example C19_roundtrip_options_example :
-  (forall n, In n (map fst (fcols example_frame2)) -> co_of example_conf2 n = None)
+  (forall n, In n (map fst (fcols example_frame2)) -> coerce_entry example_conf2 n = None)
   /\ (forall rows row x, spec_rows example_frame2 = Some rows -> In row rows -> In (DFloat x) row ->
                          guarded_fixed x (q_precision example_conf2) = x)
   /\ spec_frame example_frame2
